@@ -152,3 +152,6 @@ META = dict(
     assumptions=["zones with several transitions per year or non-hour DST shifts are outside the claim", "counterexamples only count when reproduced under the real TZ environment variable"],
     explanation="time zone as a symbolic input; library output compared with a zone-free reference on every feasible path",
 )
+
+# families added after the seeding rounds (kept next to the original bound so that MANIFEST / evidence stay current)
+META["bounds"] = dict(META["bounds"], quick=META["bounds"]["quick"] + "; added after the seeding rounds: " + 'S10; ISO-8601 string timestamps; rolling lifespan of 1-2 buckets; multi-candle appends; replay stamps are instances of a datetime subclass')
